@@ -253,7 +253,7 @@ def part_ctor(ctx, res):
                 judge_instance(res, cls, {n: v}, kind, f"only:{n}", defaults)
         # all together, and random subsets
         if len(observable) > 1:
-            for rep in range(3 if ctx.quick else 12):
+            for rep in range(3 if ctx.quick else 80):
                 kw = {}
                 for n, a, d in observable:
                     if allvals[n] and (rep == 0 or rng.random() < 0.6):
@@ -308,7 +308,7 @@ def part_dispatch(ctx, res, only=None):
                     par0 = n.getparent()
                     if not ((kid is not None and kid.tag in reg) or (par0 is not None and par0.tag in reg)):
                         continue
-                if isinstance(n.tag, str) and per_tag.get(n.tag, 0) < ((2 if ctx.quick else 6) if known else (1 if ctx.quick else 3)):
+                if isinstance(n.tag, str) and per_tag.get(n.tag, 0) < ((2 if ctx.quick else 40) if known else (1 if ctx.quick else 10)):
                     per_tag[n.tag] = per_tag.get(n.tag, 0) + 1
                     if known:
                         seen_tags.add(n.tag)
@@ -382,7 +382,7 @@ def part_content_roundtrip(ctx, res):
     from . import c09
 
     rng = ctx.rng("content")
-    for i in range(150 if ctx.quick else 3000):
+    for i in range(150 if ctx.quick else 40000):
         pieces = c09.gen_pieces(rng)
         xml = c09.pieces_xml(pieces, heading=rng.random() < 0.3)
         # add elements separated by a single space only
